@@ -1,5 +1,6 @@
 import TR.Lemmas.Fallback
 import TR.Lemmas.FallbackDrop
+import TR.Lemmas.FallbackStack
 /-!
 # C17 — fallback never replaces a success and handles exactly the errors it should
 
@@ -11,7 +12,10 @@ list of operations of the poll-level machine: any number of requests, every orde
 polls, cancellations and clock advances, every scripted latency/outcome (ok, error of any kind,
 panic, never) of the inner and of the backup service — and every point at which the caller drops
 the service, its clones and the layer (`Op.dropsvc`; `svc.oneshot(req)` is the case "right after
-the call was made").
+the call was made"). The theorems about the caller's side (`FallbackError`'s accessors, `map`, `clone`)
+hold for every result and every sequence of post-processing steps; those about a stack of two
+fallback layers for every pair of configurations (upper strategy ≠ backup service where said so),
+and, at run level, for every operation list of the lower instance.
 -/
 namespace TR.Props.C17
 open TR TR.Fallback
@@ -480,6 +484,214 @@ theorem no_call_after_dropsvc (cfg : Cfg) (pre post : List Op) (c : Nat)
     (hc : known (run cfg pre) c = false) : evsOf c (run cfg (pre ++ .dropsvc :: post)).log = [] :=
   (unknown_after_dropsvc cfg pre post c (by simpa [known] using hc)).2
 
+/-! ## the caller's side: `FallbackError`'s accessors, `map` and `clone` keep what the layer produced -/
+
+/-- What each accessor must report for each error result: `is_inner` / `is_fallback_failed` tell the
+two variants apart (exactly one holds), `inner()` and `into_inner()` give the payload whatever the
+variant; a success carries no `FallbackError` to look at. -/
+theorem accessors_exact (e : IErr) (r : Resp) :
+    (Outcome.inner e).isInner = true ∧ (Outcome.inner e).isFailed = false ∧ (Outcome.inner e).payload = some e ∧
+    (Outcome.failed e).isInner = false ∧ (Outcome.failed e).isFailed = true ∧ (Outcome.failed e).payload = some e ∧
+    viewOf (.inner e) = [⟨true, false, e, e⟩] ∧ viewOf (.failed e) = [⟨false, true, e, e⟩] ∧ viewOf (.ok r) = [] := by
+  simp [Outcome.isInner, Outcome.isFailed, Outcome.payload, viewOf]
+
+/-- `FallbackError::map` (the `map_err(|e| e.map(AppErr::from))` glue): the variant the layer produced
+stays — a failed backup stays `FallbackFailed`, a skipped or transformed error stays `Inner` — the
+payload goes through the function, a success is untouched. -/
+theorem map_keeps_variant (f : IErr → IErr) (o : Outcome) :
+    (o.mapErr f).isInner = o.isInner ∧ (o.mapErr f).isFailed = o.isFailed ∧ (o.mapErr f).payload = o.payload.map f ∧
+    (∀ e, o = .failed e → o.mapErr f = .failed (f e)) ∧ (∀ e, o = .inner e → o.mapErr f = .inner (f e)) ∧
+    (∀ r, o = .ok r → o.mapErr f = .ok r) := by
+  refine ⟨isInner_mapErr f o, isFailed_mapErr f o, payload_mapErr f o, ?_, ?_, ?_⟩ <;> intro x hx <;> subst hx <;> rfl
+
+/-- A clone of the error is the error. -/
+theorem clone_faithful (o : Outcome) : o.cloneErr = o := rfl
+
+/-- Whatever the caller does with the result before looking at it (any sequence of clone / view / map
+steps): what it finally holds is the layer's result with the payload converted once per `map` step —
+same variant, a success untouched — … -/
+theorem post_exact (steps : List PostStep) (o : Outcome) :
+    (postRun steps o).2 = o.mapErr (iter appErr (mapCount steps)) ∧
+    (postRun steps o).2.isInner = o.isInner ∧ (postRun steps o).2.isFailed = o.isFailed ∧
+    (∀ r, o = .ok r → postRun steps o = ([], .ok r)) := by
+  refine ⟨postRun_result steps o, ?_, ?_, ?_⟩
+  · rw [postRun_result, isInner_mapErr]
+  · rw [postRun_result, isFailed_mapErr]
+  · intro r hr
+    subst hr
+    induction steps with
+    | nil => rfl
+    | cons st tl ih => cases st <;> simp [postRun, postStep, Outcome.cloneErr, Outcome.mapErr, viewOf, Outcome.payload, ih]
+
+/-- … and every look it takes on the way shows the variant the layer produced, the same payload
+through `inner()` and `into_inner()`, namely the layer's payload after the `map` steps made so far. -/
+theorem post_views_exact (steps : List PostStep) (o : Outcome) (v : View) (h : v ∈ (postRun steps o).1) :
+    v.isInner = o.isInner ∧ v.isFailed = o.isFailed ∧ v.ref = v.into ∧
+      ∃ n, n ≤ mapCount steps ∧ o.payload.map (iter appErr n) = some v.ref :=
+  mem_postRun_views steps o v h
+
+/-- The "dropped backup error" case, as the caller sees it: backup strategy, the inner error accepted,
+the backup fails with `eb` — after any post-processing the caller still holds `FallbackFailed`,
+carrying the backup's error (converted once per `map` step), never `Inner`. -/
+theorem failed_backup_survives_post (cfg : Cfg) (rq : Request) (n : Nat) (e eb : IErr) (steps : List PostStep)
+    (hs : cfg.strat = .service) (h : accepts cfg e = true) :
+    (postRun steps (resolve cfg rq n (.err e) (.err eb)).2.2).2 = .failed (iter appErr (mapCount steps) eb) ∧
+    (postRun steps (resolve cfg rq n (.err e) (.err eb)).2.2).2.isFailed = true ∧
+    ∀ v ∈ (postRun steps (resolve cfg rq n (.err e) (.err eb)).2.2).1, v.isFailed = true ∧ v.isInner = false := by
+  have hr : (resolve cfg rq n (.err e) (.err eb)).2.2 = .failed eb := by
+    rw [service_backup_failing cfg rq n e eb hs h]
+  rw [hr]
+  refine ⟨by rw [postRun_result]; rfl, by rw [postRun_result]; rfl, ?_⟩
+  intro v hv
+  obtain ⟨h1, h2, _⟩ := mem_postRun_views steps _ v hv
+  exact ⟨h2, h1⟩
+
+/-- A shortcut constructor (`FallbackLayer::value(v)` …) is the builder with that strategy and no
+predicate: every error is handled, by that strategy. -/
+theorem shortcut_always_handles (st : Strategy) (val : Nat) (rq : Request) (n : Nat) (e : IErr) :
+    (shortcut st val).strat = st ∧ accepts (shortcut st val) e = true ∧
+    afterInner (shortcut st val) rq n (.err e) = applyStrategy (shortcut st val) rq n e := by
+  refine ⟨rfl, rfl, ?_⟩
+  exact handled_gets_strategy _ rq n e rfl
+
+/-! ## two fallback layers stacked: the composition of two instances of the decision function -/
+
+/-- The upper layer can tell every result of the lower layer from every other: the encoding under which
+its functions see the lower layer's error (variant and payload) loses nothing. -/
+theorem upper_sees_variant (o1 o2 : Outcome) (h : o1.asInner = o2.asInner) : o1 = o2 :=
+  asInner_injective h
+
+/-- The upper layer's decision **is** the decision function applied to the lower layer's result as
+its inner result (for every upper strategy the harness builds: all but the backup service) — so every
+theorem about `afterInner` above holds for the upper layer with "inner error" read as "the lower
+layer's `FallbackError`". -/
+theorem stack_is_composition (l u : Cfg) (hs : u.strat ≠ .service) (rq : Request) (nl nu : Nat) (ri rb : IRes) :
+    afterInner u rq nu (resolve l rq nl ri rb).2.2.asInner
+      = .finish (stackResolve l u rq nl nu ri rb).2.2.1 (stackResolve l u rq nl nu ri rb).2.2.2 ∧
+    (stackResolve l u rq nl nu ri rb).1 = (resolve l rq nl ri rb).1 ∧
+    (stackResolve l u rq nl nu ri rb).2.1 = (resolve l rq nl ri rb).2.1 :=
+  ⟨upperFinish_spec hs rq nu _, rfl, rfl⟩
+
+/-- A success of the inner service passes through both layers unchanged and triggers nothing in
+either; so does a response the lower layer's fallback produced (it is a success for the upper layer). -/
+theorem stack_success_passes_through (l u : Cfg) (rq : Request) (nl nu : Nat) (r : Resp) (rb : IRes) :
+    stackResolve l u rq nl nu (.ok r) rb = ([], false, [], .ok r) ∧
+    upperFinish u rq nu (.ok r) = ([], .ok r) := by
+  refine ⟨?_, upperFinish_ok u rq nu r⟩
+  simp [stackResolve, (success_passes_through l rq nl r rb).2, upperFinish_ok]
+
+/-- An error result of the lower layer — `Inner(e)` or `FallbackFailed(e)` — triggers the upper layer's
+strategy exactly when the upper predicate accepts **that** error (variant included), and is otherwise
+passed on unchanged under the upper layer's pass-through variant. -/
+theorem upper_handles_iff (u : Cfg) (hs : u.strat ≠ .service) (rq : Request) (n : Nat) (o : Outcome) (e' : IErr)
+    (ho : o.asInner = .err e') :
+    (accepts u e' = false → upperFinish u rq n o = ([.predicate e' false], .inner e')) ∧
+    (accepts u e' = true → afterInner u rq n (.err e') = applyStrategy u rq n e' ∧
+      applyStrategy u rq n e' = .finish (upperFinish u rq n o).1 (upperFinish u rq n o).2) := by
+  have hsp := upperFinish_spec hs rq n o
+  rw [ho] at hsp
+  constructor
+  · intro hacc
+    have := (unhandled_unchanged u rq n e' (.ok ⟨0, 0, 0⟩) hacc).1
+    rw [this] at hsp
+    injection hsp with h1 h2
+    exact Prod.ext h1.symm h2.symm
+  · intro hacc
+    have := handled_gets_strategy u rq n e' hacc
+    exact ⟨this, by rw [← this]; exact hsp⟩
+
+/-- The error transformation as the upper strategy: the transform is applied to exactly the lower
+layer's error, variant included, and the result is `Inner` of what it returns. -/
+theorem upper_exception_exact (u : Cfg) (hs : u.strat = .exception) (rq : Request) (n : Nat) (o : Outcome) (e' : IErr)
+    (ho : o.asInner = .err e') (hacc : accepts u e' = true) :
+    upperFinish u rq n o = (predCalls u e' ++ [.exception e'], .inner ⟨e'.kind + 10, e'.v⟩) := by
+  have hsp := upperFinish_spec (u := u) (by rw [hs]; decide) rq n o
+  rw [ho] at hsp
+  have := (exception_exact u rq n e' (.ok ⟨0, 0, 0⟩) hs hacc)
+  simp only [resolve] at this
+  rw [hsp] at this
+  simp only [Prod.mk.injEq, true_and] at this
+  exact Prod.ext this.1 this.2
+
+/-- The composed statement for the stack "error shaping above, backup routing below": lower layer =
+backup strategy, the inner error accepted, the backup fails with `eb`; upper layer = error
+transformation, its predicate (if any) accepting `FallbackFailed(eb)`. Then the backup was called, the
+upper transform was handed `FallbackFailed(eb)` — not `Inner(eb)`, nor any other `Inner(..)` — and the
+stack returns `Inner(transform(FallbackFailed(eb)))`. -/
+theorem exception_over_failed_backup (l u : Cfg) (rq : Request) (nl nu : Nat) (e eb : IErr)
+    (hl : l.strat = .service) (hal : accepts l e = true)
+    (hu : u.strat = .exception) (hau : accepts u ⟨2 * eb.kind + 1, eb.v⟩ = true) :
+    stackResolve l u rq nl nu (.err e) (.err eb)
+      = (predCalls l e, true, predCalls u ⟨2 * eb.kind + 1, eb.v⟩ ++ [.exception ⟨2 * eb.kind + 1, eb.v⟩],
+         .inner ⟨2 * eb.kind + 1 + 10, eb.v⟩) ∧
+    (∀ e2 : IErr, Callback.exception ⟨2 * eb.kind + 1, eb.v⟩ ≠ .exception ⟨2 * e2.kind, e2.v⟩) ∧
+    (∀ e2 : IErr, Outcome.inner ⟨2 * eb.kind + 1 + 10, eb.v⟩ ≠ .inner ⟨2 * e2.kind + 10, e2.v⟩) := by
+  refine ⟨?_, ?_, ?_⟩
+  · have hr := service_backup_failing l rq nl e eb hl hal
+    have hx := upper_exception_exact u hu rq nu (.failed eb) ⟨2 * eb.kind + 1, eb.v⟩ rfl hau
+    simp only [stackResolve, hr, hx]
+  · intro e2 h
+    injection h with h
+    injection h with h1 _
+    omega
+  · intro e2 h
+    injection h with h
+    injection h with h1 _
+    omega
+
+/-- In every run of the lower instance, under every upper configuration: a result the caller of the
+stack sees for request `c` is either a readiness failure forwarded by both `poll_ready`s, or the upper
+instance's decision on a result `o` that the lower instance delivered for `c` — taken for the request
+that was given to `c`'s inner call; and `o` is what `result_exact` says about the lower instance. -/
+theorem stack_result_exact (l u : Cfg) (ops : List Op) (c : Nat) (o' : Outcome)
+    (h : SEv.low (.result c o') ∈ stackLog u (run l ops).log) :
+    ∃ o, FEv.result c o ∈ (run l ops).log ∧
+      (o' = upperReady o ∨
+       ∃ rq n k, FEv.innerCall c k rq ∈ (run l ops).log ∧ o' = (upperFinish u rq n o).2) := by
+  obtain ⟨o, ho, hd⟩ := mem_liftLog_result (run l ops).log 0 [] h
+  refine ⟨o, ho, ?_⟩
+  rcases hd with hd | ⟨rq, n, hl, hd⟩
+  · exact Or.inl hd
+  · rcases hl with hl | ⟨k, hk⟩
+    · simp [lookup] at hl
+    · exact Or.inr ⟨rq, n, k, hk, hd⟩
+
+/-- In every run: a user function of the upper layer (predicate, strategy function) is invoked for
+request `c` only as part of its decision on an **error** result the lower instance delivered for `c`. -/
+theorem upper_callbacks_only_for_lower_errors (l u : Cfg) (ops : List Op) (c : Nat) (cb : Callback)
+    (h : SEv.up c cb ∈ stackLog u (run l ops).log) :
+    ∃ o, FEv.result c o ∈ (run l ops).log ∧ (∀ r, o ≠ .ok r) ∧ ∃ rq n, cb ∈ (upperFinish u rq n o).1 := by
+  obtain ⟨o, rq, n, ho, hcb⟩ := mem_liftLog_up (run l ops).log 0 [] h
+  refine ⟨o, ho, ?_, rq, n, hcb⟩
+  intro r hr
+  subst hr
+  rw [upperFinish_ok] at hcb
+  simp at hcb
+
+/-- In every run: once the inner call of request `c` has succeeded, the caller of the stack gets that
+very response, and no user function of the upper layer is invoked for `c` (nor, by `success_untouched`,
+any of the lower layer). -/
+theorem stack_success_untouched (l u : Cfg) (ops : List Op) (c k : Nat)
+    (h : FEv.innerDone c k .ok ∈ (run l ops).log) :
+    ∃ rq : Request, (∀ o', SEv.low (.result c o') ∈ stackLog u (run l ops).log → o' = .ok ⟨k, rq.c, rq.tag⟩) ∧
+      ∀ cb, SEv.up c cb ∉ stackLog u (run l ops).log := by
+  obtain ⟨rq, hev⟩ := success_untouched l ops c k h
+  have only : ∀ o, FEv.result c o ∈ (run l ops).log → o = .ok ⟨k, rq.c, rq.tag⟩ := by
+    intro o ho
+    have : FEv.result c o ∈ evsOf c (run l ops).log := mem_evsOf.mpr ⟨ho, rfl⟩
+    rw [hev] at this
+    simpa using this
+  refine ⟨rq, ?_, ?_⟩
+  · intro o' ho'
+    obtain ⟨o, ho, hd⟩ := stack_result_exact l u ops c o' ho'
+    rw [only o ho] at hd
+    rcases hd with hd | ⟨rq', n, _, _, hd⟩
+    · exact hd
+    · rw [hd, upperFinish_ok]
+  · intro cb hcb
+    obtain ⟨o, ho, hne, _⟩ := upper_callbacks_only_for_lower_errors l u ops c cb hcb
+    exact hne _ (only o ho)
+
 /-! ## non-vacuity -/
 
 /-- The grid is inhabited in every corner: with predicate "kind 1 only" the backup strategy
@@ -553,6 +765,35 @@ example :
       [.innerCall 1 0 ⟨1, 11⟩, .innerDone 1 0 (.err 1), .resp 1 (.failed ⟨9, 0⟩), .result 1 (.failed ⟨9, 0⟩),
        .innerCall 2 1 ⟨2, 12⟩, .innerDone 2 1 (.err 1), .backupCall 2 2 ⟨2, 12⟩, .backupDone 2 2 .ok,
        .resp 2 (.ok ⟨2, 2, 12⟩), .result 2 (.ok ⟨2, 2, 12⟩)] := by
+  decide
+
+/-- The caller's post-processing on a failed backup: cloned, looked at, converted, looked at again —
+`FallbackFailed` throughout, payload 3:4 then 103:4. -/
+example :
+    postRun [.clone, .view, .map, .view] (.failed ⟨3, 4⟩)
+      = ([⟨false, true, ⟨3, 4⟩, ⟨3, 4⟩⟩, ⟨false, true, ⟨103, 4⟩, ⟨103, 4⟩⟩], .failed ⟨103, 4⟩) ∧
+    postRun [.map, .view] (.inner ⟨2, 7⟩) = ([⟨true, false, ⟨102, 7⟩, ⟨102, 7⟩⟩], .inner ⟨102, 7⟩) := by
+  decide
+
+/-- A stack in a concrete run: the lower layer (backup strategy, predicate "kind 1 only") over the
+upper layer (error transformation, predicate "only `FallbackFailed`"). Request 1: inner `err1`, backup
+`err3` — the transform is handed `FallbackFailed(3:1)` (kind 7 under the encoding) and the caller gets
+`Inner` of its result (kind 17); request 2: inner `err2` is rejected below, `Inner(2:2)` (kind 4) is
+rejected above: passed on; request 3 succeeds: nothing is called. -/
+example :
+    let l : Cfg := { strat := .service, handle := some 2, val := 700 }
+    let u : Cfg := { strat := .exception, handle := some 0xAAAAAAAAAAAAAAAA, val := 0 }
+    let ops := [Op.arrive 1 11 [⟨0, .err 1⟩, ⟨0, .err 3⟩], .arrive 2 12 [⟨0, .err 2⟩], .arrive 3 13 [⟨0, .ok⟩],
+                .poll 1, .poll 2, .poll 3]
+    stackLog u (run l ops).log =
+      [.low (.innerCall 1 0 ⟨1, 11⟩), .low (.innerDone 1 0 (.err 1)), .low (.callback 1 (.predicate ⟨1, 0⟩ true)),
+       .low (.backupCall 1 1 ⟨1, 11⟩), .low (.backupDone 1 1 (.err 3)),
+       .up 1 (.predicate ⟨7, 1⟩ true), .up 1 (.exception ⟨7, 1⟩),
+       .low (.resp 1 (.inner ⟨17, 1⟩)), .low (.result 1 (.inner ⟨17, 1⟩)),
+       .low (.innerCall 2 2 ⟨2, 12⟩), .low (.innerDone 2 2 (.err 2)), .low (.callback 2 (.predicate ⟨2, 2⟩ false)),
+       .up 2 (.predicate ⟨4, 2⟩ false), .low (.resp 2 (.inner ⟨4, 2⟩)), .low (.result 2 (.inner ⟨4, 2⟩)),
+       .low (.innerCall 3 3 ⟨3, 13⟩), .low (.innerDone 3 3 .ok),
+       .low (.resp 3 (.ok ⟨3, 3, 13⟩)), .low (.result 3 (.ok ⟨3, 3, 13⟩))] := by
   decide
 
 end TR.Props.C17
